@@ -253,6 +253,12 @@ def run_case(i, rng, tier):
             elif kind == "fillnp" and S.has_quantity(sp):
                 recs = _np_safe(sp, [r for r, _ in S.gen_stream(rng, sp, rng.randint(0, 4))])
                 ws = [rng.choice([1.0, 0.5, 2.0, 0.0]) for _ in recs]
+                if rng.random() < 0.3:
+                    # decimal weights: the sums are no longer exact, so original and clone agree to the last bit only if
+                    # they add the same numbers in the same order, i.e. run the same code path (the model is not consulted)
+                    ws = [rng.choice([0.1, 0.3, 0.7, 1.0 / 3, 0.0]) for _ in recs]
+                    ghost_ok = False
+                    counters["decimal_weight_batches"] = counters.get("decimal_weight_batches", 0) + 1
                 b1 = B.Batch(B.columns(recs), "dict")
                 b2 = B.Batch(B.columns(recs), "dict")
                 h.fill.numpy(b1.data, B.weights_array(ws))
@@ -375,7 +381,7 @@ def conclusive(agg):
     for fl in S.FLAVOURS:
         if fl not in agg.sets.get("flavours", ()):
             out.append("quantity flavour never generated: " + fl)
-    for c in ("state:live", "state:merged", "state:reloaded", "state:built", "built_merges", "bare_value_fills", "missing_field_fills", "builtin_quantity_cases", "zero_entry_bins_injected", "lockstep_comparisons", "final_ghost_checks"):
+    for c in ("state:live", "state:merged", "state:reloaded", "state:built", "built_merges", "bare_value_fills", "missing_field_fills", "builtin_quantity_cases", "zero_entry_bins_injected", "decimal_weight_batches", "lockstep_comparisons", "final_ghost_checks"):
         if not agg.counters.get(c):
             out.append("never exercised: " + c)
     miss = [k for k in S.ALL_KINDS if k not in agg.sets.get("kinds", ())]
